@@ -94,6 +94,11 @@ Definition wf_sop_in (s : srv) (x : sop) : Prop :=
   | SAlloc _ n _ => 0 <= n
   | SSetOpts o => wf_opts (with_logins o (eff_logins_of (sw_max s) o))
   | SLogin _ m => wf_opts (with_logins (so s) (eff_logins_of (sw_after s m) (so s)))
+  | SNotifyDone true reply =>
+      match parse_notify_reply reply with
+      | Some (_, m) => wf_opts (with_logins (so s) (eff_logins_of (sw_after s m) (so s)))
+      | None => True
+      end
   | _ => True
   end.
 
@@ -128,9 +133,31 @@ Proof.
     split; [exact Wso|]. rewrite Hc'. split; [simpl; unfold eff_logins in *; lia|]. split; auto.
 Qed.
 
+Lemma login_done_inv s id m : SrvInv s ->
+  wf_opts (with_logins (so s) (eff_logins_of (sw_after s m) (so s))) ->
+  exists s', login_done false s id m = SOk s' /\ SrvInv s'.
+Proof.
+  intros I Hx. pose proof I as (Wso & o0 & W0 & Hc0 & B). unfold login_done.
+  set (s1 := match m with
+             | Some x => if inproc s then s
+                         else mkSrv (so s) (cid s) (a_audio s) (a_control s) (a_buffer s) (nodes s) (Some x) (inproc s)
+             | None => s end).
+  assert (I1 : SrvInv s1).
+  { split.
+    - unfold eff_opts, eff_logins. unfold sw_after in Hx.
+      replace (so s1) with (so s) by (unfold s1; destruct m; [destruct (inproc s)|]; reflexivity).
+      replace (sw_max s1) with (match m with Some x => if inproc s then sw_max s else Some x | None => sw_max s end)
+        by (unfold s1; destruct m; [destruct (inproc s)|]; reflexivity).
+      exact Hx.
+    - exists o0. split; auto.
+      replace (cid s1) with (cid s) by (unfold s1; destruct m; [destruct (inproc s)|]; reflexivity).
+      split; auto. unfold s1; destruct m; [destruct (inproc s)|]; auto. }
+  destruct (set_client_id_inv s1 id I1) as (s' & E & I' & _). eauto.
+Qed.
+
 Lemma sstep_inv s x : SrvInv s -> wf_sop_in s x -> exists s' r, sstep false s x = SOk (s', r) /\ SrvInv s'.
 Proof.
-  intros I Hx. pose proof I as (Wso & o0 & W0 & Hc0 & B). destruct x as [k n c|k a| |v|o|id m]; simpl in *.
+  intros I Hx. pose proof I as (Wso & o0 & W0 & Hc0 & B). destruct x as [k n c|k a| |v|o|id m|active reply|]; simpl in *.
   - destruct B as (Hc & Hall & Hn). destruct (Hall k) as (A & E).
     destruct (step_inv (get_alloc s k) (OAlloc n c) A Hx) as (a' & r & Es & A' & Kp & Ko & Ks & _).
     simpl in Es. rewrite Es. eexists. eexists. split; [reflexivity|].
@@ -151,22 +178,11 @@ Proof.
     split; [reflexivity|]. split; [exact Hall|]. simpl. split; [exact Hn1|]. split; [exact Hu|exact Hi].
   - destruct (set_client_id_inv s v I) as (s' & E & I' & _). rewrite E. eauto.
   - eexists. eexists. split; [reflexivity|]. split; [exact Hx|]. exists o0. auto.
-  - unfold login_done.
-    set (s1 := match m with
-               | Some x => if inproc s then s
-                           else mkSrv (so s) (cid s) (a_audio s) (a_control s) (a_buffer s) (nodes s) (Some x) (inproc s)
-               | None => s end).
-    assert (I1 : SrvInv s1).
-    { split.
-      - unfold eff_opts, eff_logins. unfold sw_after in Hx.
-        replace (so s1) with (so s) by (unfold s1; destruct m; [destruct (inproc s)|]; reflexivity).
-        replace (sw_max s1) with (match m with Some x => if inproc s then sw_max s else Some x | None => sw_max s end)
-          by (unfold s1; destruct m; [destruct (inproc s)|]; reflexivity).
-        exact Hx.
-      - exists o0. split; auto.
-        replace (cid s1) with (cid s) by (unfold s1; destruct m; [destruct (inproc s)|]; reflexivity).
-        split; auto. unfold s1; destruct m; [destruct (inproc s)|]; auto. }
-    destruct (set_client_id_inv s1 id I1) as (s' & E & I' & _). rewrite E. eauto.
+  - destruct (login_done_inv s id m I Hx) as (s' & E & I'). rewrite E. eauto.
+  - destruct active; [|eauto].
+    destruct (parse_notify_reply reply) as [[id m]|]; [|eauto].
+    destruct (login_done_inv s id m I Hx) as (s' & E & I'). rewrite E. eauto.
+  - eauto.
 Qed.
 
 Lemma srun_inv h : forall s, SrvInv s -> wf_hist false s h -> exists s' outs, srun false s h = SOk (s', outs) /\ SrvInv s'.
@@ -300,3 +316,16 @@ Proof.
   split; [vm_compute; reflexivity|]. split; [vm_compute; reflexivity|].
   split; [reflexivity|]. split; [reflexivity|]. split; [reflexivity|]. vm_compute. intros H. apply H. reflexivity.
 Qed.
+
+(* the OSC reply ['/done', '/notify', id, m, ...] while booting or registering IS the login "client id of m" *)
+Lemma notify_reply_is_login gl s id m rest :
+  sstep gl s (SNotifyDone true (id :: m :: rest)) = sstep gl s (SLogin id (Some m)).
+Proof. reflexivity. Qed.
+
+Lemma notify_reply_without_count gl s id : sstep gl s (SNotifyDone true [id]) = sstep gl s (SLogin id None).
+Proof. reflexivity. Qed.
+
+Lemma notify_reply_not_a_login gl s reply :
+  sstep gl s (SNotifyDone false reply) = SOk (s, None) /\ sstep gl s (SNotifyDone true []) = SOk (s, None) /\
+  sstep gl s SNotifyFail = SOk (s, None).
+Proof. repeat split. Qed.
